@@ -226,6 +226,8 @@ pub fn proto_worlds(tier: Tier, with_foreach: bool, with_sources: bool) -> Vec<W
                 s.cfg.late = vec![true, true, false];
             } else if s.name.contains("merge2(.,concat2)") {
                 s.cfg.late = vec![true, false, false];
+            } else if s.name.contains("merge2(merge2,.)") {
+                s.cfg.late = vec![true, true, true];
             }
         }));
     }
